@@ -13,7 +13,7 @@ use crate::{
     explore::{Params, explore},
     net::LinkOpts,
     report::{Report, Tier, known_sigs},
-    util::{Shared, panic_findings, shared},
+    util::{Shared, panic_findings, shared, yield_once},
     world::{Ending, Env, Judge, Outcome, Scenario, Verdict},
 };
 
@@ -56,6 +56,8 @@ pub struct BcastScenario {
     pub paced: bool,
     /// every sender is dropped before the stalled subscribers start to drain
     pub drop_first: bool,
+    /// values are fed through Sender::feeder() instead of Sender::send()
+    pub via_feeder: bool,
 }
 
 #[derive(Default)]
@@ -166,6 +168,7 @@ impl Scenario for BcastScenario {
                 }
             });
             let tx = broadcast::Sender::<u32, C>::new();
+            let feeder = if p.via_feeder { Some(tx.feeder::<2>()) } else { None };
             let mut local = Vec::new();
             for v in 0..=p.n {
                 for (i, s) in p.subs.iter().enumerate() {
@@ -188,12 +191,24 @@ impl Scenario for BcastScenario {
                     }
                 }
                 if v < p.n {
+                    if let Some(f) = &feeder {
+                        // the feeder task broadcasts on behalf of the caller; a slow subscriber must not stop it
+                        let r = f.send(v + 1).await;
+                        o2.lock().unwrap().send_results.push(match r {
+                            Ok(_) => "ok".into(),
+                            Err(e) => format!("err:feed:{:?}", e.without_item()),
+                        });
+                        for _ in 0..8 {
+                            yield_once().await;
+                        }
+                    } else {
                     // send is synchronous: it can never wait for a slow subscriber
                     let r = tx.send(v + 1);
                     o2.lock().unwrap().send_results.push(match r {
                         Ok(_) => "ok".into(),
                         Err(e) => format!("err:{:?}", e.without_item()),
                     });
+                    }
                     if p.paced {
                         env.quiesce().await;
                     }
@@ -202,6 +217,7 @@ impl Scenario for BcastScenario {
             env.quiesce().await;
             o2.lock().unwrap().burst_done = true;
             // release stalled subscribers, then end the channel (or the other way round)
+            drop(feeder);
             let mut tx = Some(tx);
             if p.drop_first {
                 drop(tx.take());
@@ -327,18 +343,29 @@ pub fn grid(tier: Tier) -> Vec<Arc<dyn Scenario>> {
                             for paced in [true, false] {
                                 let slow = Sub { remote, send_buffer: sb, recv_buffer: rb, pattern: pat, join_after };
                                 let fast = Sub { remote: !remote, send_buffer: 2, recv_buffer: 2, pattern: Pattern::KeepUp, join_after: 0 };
-                                out.push(Arc::new(BcastScenario { n, subs: vec![fast.clone(), slow.clone()], paced, drop_first: false }));
+                                out.push(Arc::new(BcastScenario { n, subs: vec![fast.clone(), slow.clone()], paced, drop_first: false, via_feeder: false }));
                                 if !matches!(pat, Pattern::KeepUp | Pattern::LeaveAfter(_)) {
-                                    out.push(Arc::new(BcastScenario { n, subs: vec![fast.clone(), slow.clone()], paced, drop_first: true }));
+                                    out.push(Arc::new(BcastScenario { n, subs: vec![fast.clone(), slow.clone()], paced, drop_first: true, via_feeder: false }));
                                 }
                                 if tier == Tier::Thorough {
                                     let third = Sub { remote, send_buffer: 1, recv_buffer: 1, pattern: Pattern::StallAfter(2), join_after: 1 };
-                                    out.push(Arc::new(BcastScenario { n, subs: vec![fast, slow, third], paced, drop_first: false }));
+                                    out.push(Arc::new(BcastScenario { n, subs: vec![fast, slow, third], paced, drop_first: false, via_feeder: false }));
                                 }
                             }
                         }
                     }
                 }
+            }
+        }
+    }
+    // values fed through Sender::feeder(): a subscriber that is merely slow must not disconnect the feeder
+    for sb in [1usize, 2] {
+        for pat in [Pattern::StallAfter(0), Pattern::StallAfter(1), Pattern::Never, Pattern::KeepUp] {
+            for remote in [false, true] {
+                let slow = Sub { remote, send_buffer: sb, recv_buffer: 1, pattern: pat, join_after: 0 };
+                let fast = Sub { remote: !remote, send_buffer: 2, recv_buffer: 2, pattern: Pattern::KeepUp, join_after: 0 };
+                out.push(Arc::new(BcastScenario { n: 4, subs: vec![slow.clone()], paced: true, drop_first: false, via_feeder: true }));
+                out.push(Arc::new(BcastScenario { n: 4, subs: vec![fast, slow], paced: true, drop_first: false, via_feeder: true }));
             }
         }
     }
@@ -348,9 +375,9 @@ pub fn grid(tier: Tier) -> Vec<Arc<dyn Scenario>> {
 pub fn core(_tier: Tier) -> Vec<Arc<dyn Scenario>> {
     let fast = Sub { remote: true, send_buffer: 2, recv_buffer: 2, pattern: Pattern::KeepUp, join_after: 0 };
     vec![
-        Arc::new(BcastScenario { n: 3, subs: vec![fast.clone(), Sub { remote: false, send_buffer: 1, recv_buffer: 1, pattern: Pattern::StallAfter(1), join_after: 0 }], paced: false, drop_first: false }),
-        Arc::new(BcastScenario { n: 3, subs: vec![fast.clone(), Sub { remote: true, send_buffer: 1, recv_buffer: 1, pattern: Pattern::StallAfter(0), join_after: 1 }], paced: true, drop_first: false }),
-        Arc::new(BcastScenario { n: 4, subs: vec![fast, Sub { remote: false, send_buffer: 2, recv_buffer: 1, pattern: Pattern::Never, join_after: 0 }], paced: true, drop_first: true }),
+        Arc::new(BcastScenario { n: 3, subs: vec![fast.clone(), Sub { remote: false, send_buffer: 1, recv_buffer: 1, pattern: Pattern::StallAfter(1), join_after: 0 }], paced: false, drop_first: false, via_feeder: false }),
+        Arc::new(BcastScenario { n: 3, subs: vec![fast.clone(), Sub { remote: true, send_buffer: 1, recv_buffer: 1, pattern: Pattern::StallAfter(0), join_after: 1 }], paced: true, drop_first: false, via_feeder: false }),
+        Arc::new(BcastScenario { n: 4, subs: vec![fast, Sub { remote: false, send_buffer: 2, recv_buffer: 1, pattern: Pattern::Never, join_after: 0 }], paced: true, drop_first: true, via_feeder: false }),
     ]
 }
 
